@@ -24,6 +24,9 @@ func solvers(timeoutS int) []Solver {
 		{Name: "z3-new-5.1.0", Cmd: []string{"z3-new", fmt.Sprintf("-T:%d", timeoutS)}},
 		{Name: "z3-4.8.12", Cmd: []string{"z3", fmt.Sprintf("-T:%d", timeoutS)}},
 		{Name: "cvc5-1.0", Cmd: []string{"cvc5", "--lang=smt2", fmt.Sprintf("--tlimit=%d", timeoutS*1000)}},
+		// pattern-based instantiation only: answers unsat or unknown; decides array-copy invariants the
+		// model-based configurations above need 10-25 s for (session 4: inode.Read/R-copied) in 3 s
+		{Name: "z3-new-5.1.0(ematch)", Cmd: []string{"z3-new", fmt.Sprintf("-T:%d", timeoutS), "smt.mbqi=false", "smt.auto_config=false"}},
 	}
 }
 
@@ -228,7 +231,7 @@ func race(fr *FuncResult, o *Obligation, mode, base string, perOblS int, sem cha
 	ch = make(chan ans, len(svs)*len(files))
 	for fi, f := range files {
 		for _, sv := range svs {
-			if sv.Name == skip {
+			if skip != "" && strings.HasPrefix(sv.Name, skip) {
 				continue
 			}
 			n++
